@@ -52,6 +52,19 @@ def conn_histories(chk, label, **kw):
     return summ
 
 
+def replay_check(chk, name, summ):
+    part = {k: v for k, v in summ.items() if k != "mismatches"}
+    part["name"] = name
+    chk.parts.setdefault("replays", []).append(part)
+    chk.evaluations += summ.get("evaluations", 0)
+    # every TLC-generated behaviour / table row executed on the implementation and compared step by
+    # step counts as one trace validated against the implementation
+    chk.traces += summ.get("replayed", 0) + summ.get("rows", 0) + summ.get("handshakes", 0)
+    for m in summ["mismatches"]:
+        chk.violation("replay:%s:%s" % (name, str(m.get("what"))[:100]),
+                      "real code diverges from the specification's behaviour (%s): %s" % (name, json.dumps(m)[:600]), m)
+
+
 @prop("C04")
 def c04(chk):
     chk.rule = ("cases = (operation on the active set, outcome, origin pair / reason) observed in recorded runs; "
@@ -88,6 +101,22 @@ def c04(chk):
     for r in st["runs"]:
         if r["dup_listing"]:
             chk.violation("apstress:dup_listing", f"peers() returned a duplicate (seed {r['seed']})", r)
+    # (c) specification -> implementation: every behaviour of the ActivePeers state machine (MC_Ap)
+    # up to a depth, and long random walks, executed on the real ActivePeers with real connections
+    chk.add_mc(tlc_mc("MC_Ap.tla", "MC_Ap_quick.cfg" if quick(chk) else "MC_Ap.cfg", workers=8, timeout=900))
+    beh, viol = vlib.tlc_replays("MC_Ap.tla", "SIM_Ap_ex3.cfg" if quick(chk) else "SIM_Ap_ex4.cfg", exhaustive=True, workers=4)
+    if viol:
+        chk.violation("model:" + viol, "TLC: %s in MC_Ap" % viol, {})
+    walks, viol2 = vlib.tlc_replays("MC_Ap.tla", "SIM_Ap.cfg", num=300 if quick(chk) else 5000, depth=16)
+    for name, bs in (("ap-exhaustive", beh), ("ap-walks", walks)):
+        path = vlib.write_json(os.path.join(vlib.WORK, "C04_%s.json" % name), bs)
+        summ = harness("replay-ap", file=path, threads=8)
+        replay_check(chk, name, summ)
+    for b in beh + walks:
+        for s in b["steps"]:
+            if s["ret"] in ("replaced", "rejected", "removed"):
+                chk.distinct.add(json.dumps(("replay", s["op"], s["ret"], s["origin"], len(s["post"]["listing"]))))
+    spec_mutant(chk, "ap_no_lost_on_replace", "MC_Ap.tla", "MC_Ap_quick.cfg", [MUT_NO_LOST_ON_REPLACE], workers=4)
     if not quick(chk):
         spec_mutant(chk, "remove_by_peer", "MC_Conn.tla", "MC_Conn_quick.cfg", [MUT_REMOVE_BY_PEER])
         spec_mutant(chk, "no_lost_on_replace", "MC_Conn.tla", "MC_Conn_quick.cfg", [MUT_NO_LOST_ON_REPLACE])
@@ -180,6 +209,22 @@ def c03(chk):
                 elif r["ev"] in ("obs.connect_result",) and "addr" in r:
                     chk.case((addr_kind.get(r["addr"]), r.get("expected"), r["ok"], r.get("peer")))
         sample_events(chk, summ, ("obs.connect_result", "dial.done"), n=3)
+    # (c) specification -> implementation: every behaviour of the ActivePeers state machine (MC_Ap)
+    # up to a depth, and long random walks, executed on the real ActivePeers with real connections
+    chk.add_mc(tlc_mc("MC_Ap.tla", "MC_Ap_quick.cfg" if quick(chk) else "MC_Ap.cfg", workers=8, timeout=900))
+    beh, viol = vlib.tlc_replays("MC_Ap.tla", "SIM_Ap_ex3.cfg" if quick(chk) else "SIM_Ap_ex4.cfg", exhaustive=True, workers=4)
+    if viol:
+        chk.violation("model:" + viol, "TLC: %s in MC_Ap" % viol, {})
+    walks, viol2 = vlib.tlc_replays("MC_Ap.tla", "SIM_Ap.cfg", num=300 if quick(chk) else 5000, depth=16)
+    for name, bs in (("ap-exhaustive", beh), ("ap-walks", walks)):
+        path = vlib.write_json(os.path.join(vlib.WORK, "C04_%s.json" % name), bs)
+        summ = harness("replay-ap", file=path, threads=8)
+        replay_check(chk, name, summ)
+    for b in beh + walks:
+        for s in b["steps"]:
+            if s["ret"] in ("replaced", "rejected", "removed"):
+                chk.distinct.add(json.dumps(("replay", s["op"], s["ret"], s["origin"], len(s["post"]["listing"]))))
+    spec_mutant(chk, "ap_no_lost_on_replace", "MC_Ap.tla", "MC_Ap_quick.cfg", [MUT_NO_LOST_ON_REPLACE], workers=4)
     if not quick(chk):
         spec_mutant(chk, "remove_by_peer", "MC_Conn.tla", "MC_Conn_quick.cfg", [MUT_REMOVE_BY_PEER])
 
